@@ -209,6 +209,14 @@ void hk_wait4(pid_t arg, int options, pid_t ret, int status)
 	}
 }
 
+/* the calling thread is held up for a moment just before the signal is sent (whatever the caller checked before may have changed by
+ * then, unless it holds the lock that the reaper needs) */
+void hk_kill_pre(pid_t pid, int sig)
+{
+	(void)pid; (void)sig;
+	fork_window_delay();
+}
+
 void hk_kill(pid_t pid, int sig, int ret, int err)
 {
 	struct pr *p = pr_by_pid(pid);
